@@ -972,10 +972,11 @@ def c18_spelling_products(tier):
 # which call gets the inferred name (and props / emits) when Vue's defineComponent calls are NESTED in each other's arguments (setup body, options
 # object, wrapper call, array, directly) or FOLLOW a declaration whose call cannot take a name (spread / non-function first argument, destructuring,
 # conditional, another function) - every call must be augmented for itself only
-# (inner calls are of shapes that receive NOTHING themselves - no typed props, no emits, not a declarator's initializer: Oracle.c20Call compares the other
-# arguments and the user's option entries of an augmented call literally, so an inner call that is legitimately augmented for itself would raise
-# `arguments-changed` / `options-changed` for the OUTER call; typed inner calls are therefore not in the stream)
-C20_INNER = ["() => () => null", "{ setup() {} }", "(p) => {}", "someObject", "() => {}, { inheritAttrs: false }", "function () { return () => null; }"]
+# (inner calls that are legitimately augmented for themselves - typed props, emits - are in the stream too: Oracle.c20Call takes Vue's defineComponent
+# calls nested in the ARGUMENTS of the call it judges out of the comparison, each is judged as its own pair)
+C20_INNER = ["() => () => null", "{ setup() {} }", "(p) => {}", "someObject", "() => {}, { inheritAttrs: false }", "function () { return () => null; }",
+             "(p: { inner: string }) => () => null", "(p: { a?: number }, c: SetupContext<{ (e: 'i'): void }>) => {}, { inheritAttrs: false }",
+             "(p: { z: boolean }) => {}, { props: ['z'] }"]
 C20_NEST = ["(props: { id: number }) => { const inner = [defineComponent(@I)]; return () => null; }",
             "(props: { id: number }) => () => h(defineComponent(@I))",
             "(props: { id: number }) => () => null, { components: { Child: defineComponent(@I) } }",
